@@ -10,7 +10,7 @@ import ast
 import z3
 
 from . import values as V
-from .values import (E, SInt, SBool, SSeq, SOpt, Ref, SymErr, toint, tobool, ite, vite,
+from .values import (E, SInt, SBool, SSeq, SOpt, Ref, SymMap, SymErr, toint, tobool, ite, vite,
                      AND, OR, NOT, implies, merge_values, val_eq)
 from . import source
 
@@ -71,7 +71,7 @@ class State:
         """Sequence value behind v (deref mutable)."""
         if isinstance(v, Ref):
             h = self.heap[v.id]
-            if isinstance(h, dict):
+            if isinstance(h, (dict, SymMap)):
                 raise SymErr('object used as sequence')
             return h
         return SSeq.of(v)
@@ -484,6 +484,8 @@ class Exec:
         return val_eq(a, b)
 
     def contains(self, cont, item, st, node):
+        if isinstance(cont, Ref) and isinstance(st.heap[cont.id], SymMap):
+            return st.heap[cont.id].contains(item)
         if isinstance(cont, (dict, set, frozenset)) and not isinstance(item, (SInt, SSeq, SBool)):
             return item in cont
         if isinstance(cont, (tuple, list)) and all(isinstance(x, (int, str, bytes)) for x in cont):
@@ -561,6 +563,8 @@ class Exec:
             raise SymErr('no class attribute %s' % attr)
         if isinstance(base, (SSeq, bytes, str)):
             return SeqMethod(base, attr)
+        if isinstance(base, SInt) and hasattr(self.c, 'method_model'):
+            return SeqMethod(base, attr)          # an abstract (int-coded) value: methods are interpreted by the contract
         if isinstance(base, BuiltinVal):
             return BuiltinVal(base.name + '.' + attr)
         if isinstance(base, ExternVal):
@@ -592,6 +596,11 @@ class Exec:
 
     def ev_Subscript(self, n, st):
         base = self.ev(n.value, st)
+        if isinstance(base, Ref) and isinstance(st.heap[base.id], SymMap):
+            m = st.heap[base.id]
+            k = self.ev(n.slice, st)
+            self.oblige(st, m.contains(k), 'no-KeyError', n)
+            return m.get(k)
         if isinstance(base, dict):
             k = self.ev(n.slice, st)
             if isinstance(k, (SInt, SSeq, SBool)):
@@ -764,6 +773,11 @@ class Exec:
             base = self.ev(t.value, st)
             if not isinstance(base, Ref):
                 raise SymErr('store into immutable value (line %s)' % node.lineno)
+            if isinstance(st.heap[base.id], SymMap):
+                hook = getattr(self.c, 'map_store', None)
+                k = self.ev(t.slice, st)
+                st.write_cell(base, hook(self, st.heap[base.id], k, v, st) if hook else st.heap[base.id].store(k, v))
+                return
             sq = st.seq(base)
             if isinstance(t.slice, ast.Slice):
                 lo = self.ev(t.slice.lower, st) if t.slice.lower is not None else None
